@@ -128,11 +128,11 @@ theorem reflect_inside {r : R2} {h w : Nat} (hr : Spec.R2.Inside r h w) (c : Cor
 theorem rotateRegion_of_inside {r : R2} {h w : Nat} (hr : Spec.R2.Inside r h w) (c : Corner) :
     rotateRegion r h w c = some (reflect r h w c) := by
   unfold Spec.R2.Inside at hr
-  cases c <;> simp only [rotateRegion, reflect] <;> apply region2dNew_eq_some <;> dsimp only <;> omega
+  cases c <;> simp only [rotateRegion, reflect] <;> apply region2dNew_eq_some <;> (try dsimp only) <;> omega
 
 theorem reflect_reflect (r : R2) (h w : Nat) (c : Corner) : reflect (reflect r h w c) h w c = r := by
   obtain ⟨y0, y1, x0, x1⟩ := r
-  cases c <;> simp only [reflect, R2.mk.injEq] <;> omega
+  cases c <;> simp only [reflect, R2.mk.injEq, and_self, true_and, and_true] <;> omega
 
 /-! ### interval clipping -/
 
